@@ -2,6 +2,8 @@ pub mod c01;
 pub mod c02;
 pub mod c03;
 pub mod c04;
+pub mod c07;
+pub mod c10;
 pub mod c13;
 
 use crate::gen::Excl;
@@ -15,6 +17,8 @@ pub fn run(ctx: &mut RunCtx) -> i32 {
         "C13" => c13::run(ctx),
         "C04" => c04::run(ctx),
         "C03" => c03::run(ctx),
+        "C07" => c07::run(ctx),
+        "C10" => c10::run(ctx),
         other => {
             ctx.say(&format!("unknown property {}", other));
             2
@@ -30,6 +34,8 @@ pub fn replay_fails(v: &Value) -> Option<(bool, String)> {
         "sem-opt" => c02::replay_case(v),
         "c13" => c13::replay_case(v),
         "c04" => c04::replay_case(v),
+        "c07" => c07::replay_case(v),
+        "c10" => c10::replay_case(v),
         "c03-skeleton" | "c03-program" => c03::replay_case(v),
         _ => None,
     }
